@@ -55,6 +55,7 @@ structure Ctx where
   modelAgrees : Bool          -- the model reproduces the real (annotated) results exactly
   modelSites : List String    -- the model's panic site per step
   prefixReuse : Bool          -- the model took a memo hit under a different static attribute prefix
+  oddNames : Bool             -- the history defines or executes a template whose name contains "$htmltemplate_"
 
 def mkCtx (hist : Bytes) (real : String) : Ctx :=
   let lines := historyLines hist
@@ -63,7 +64,11 @@ def mkCtx (hist : Bytes) (real : String) : Ctx :=
   let (mres, wf) := runLinesW lines
   let model := annotateWith (fun ls => (runLines ls).map (·.1)) lines (mres.map (·.1))
   { lines := lines, steps := steps, sets := stepSets lines (steps.map (·.res)),
-    modelAgrees := model == realSteps, modelSites := mres.map (·.2), prefixReuse := prefixReuseIn wf }
+    modelAgrees := model == realSteps, modelSites := mres.map (·.2), prefixReuse := prefixReuseIn wf,
+    oddNames := lines.any fun l => (Ops.Tmpl.fieldsOf l).any fun f =>
+      match unhex f with
+      | some b => ((SafeHtml.Model.Tmpl.strOfBytes b).splitOn "$htmltemplate_").length > 1
+      | none => false }
 
 /-- a failure is attributed to a listed finding only when the model reproduces the real behaviour -/
 def verdict (c : Ctx) (clause sig : String) : String :=
@@ -105,7 +110,7 @@ def c06 (c : Ctx) : String :=
     else if sameObservable s.res s.fresh then none
     else
       -- the one listed deviation: the memo key of a derived template leaves out the static attribute prefix
-      let sig := if c.prefixReuse then "memo-ignores-attr-prefix" else ""
+      let sig := if c.oddNames then "mangled-name-collision" else if c.prefixReuse then "memo-ignores-attr-prefix" else ""
       some (if isOk s.res && isAnalysisErr s.fresh then ("ok-but-fresh-set-rejects", sig)
         else if isOk s.res && isOk s.fresh then ("output-differs-from-fresh-set", sig)
         else if isErr s.res && isOk s.fresh then ("error-but-fresh-set-succeeds", sig)
@@ -192,7 +197,12 @@ def run (which : String) (hist : Bytes) (real : List String) : String :=
     | "C08" => c08 c
     -- C09, sequential part: the serial reference the concurrent runs are compared with is itself order-independent
     -- (every call equals the same call on a fresh set) and panic-free
-    | "C09" => let r := c08 c; if r != "pass" then r else c06 c
+    | "C09" =>
+      let r := c08 c
+      if r != "pass" then r else
+      let r6 := c06 c
+      -- an order dependence that carries the signature of a finding listed under C06 is reported there, not here
+      if (r6.splitOn ":").length > 2 then "pass" else r6
     | _ => "pass"
 
 end SafeHtml.Oracle.Hist
